@@ -80,7 +80,7 @@ pub fn ctor<const N: usize, P: Pad>(ctx: &mut Ctx) {
                     );
                 }
                 for (id, _) in src.iter() {
-                    if ledger_is_live(*id) {
+                    if P::DROP && ledger_is_live(*id) {
                         ctx.violation("C12", format!("op=clone|ncap={}|source_not_destroyed", ncls(N)), format!("source element {} still alive; case={}", id, ctx.cur_case));
                     }
                 }
